@@ -80,6 +80,10 @@ struct LayerM {
     /// when set, (ox, oy) is a pending preview (drag) offset on top of this stored base offset: Layer::get_offset() reports (ox, oy)
     #[serde(default)]
     base: Option<(i8, i8)>,
+    /// the layer was created (margin.0, margin.1) cells larger, the surplus filled with visible cells, and then shrunk with Layer::set_size:
+    /// the storage keeps cells outside the layer's rectangle (what the editor leaves behind after a layer/canvas resize)
+    #[serde(default)]
+    margin: (u8, u8),
 }
 
 #[derive(Clone, Debug, Hash, Serialize, Deserialize)]
@@ -136,7 +140,7 @@ impl LayerM {
 }
 
 fn build_layer(m: &LayerM, page: usize) -> Layer {
-    let mut l = Layer::new("l", (m.w as i32, m.h as i32));
+    let mut l = Layer::new("l", (m.w as i32 + m.margin.0 as i32, m.h as i32 + m.margin.1 as i32));
     l.properties.has_alpha_channel = m.alpha;
     l.properties.mode = match m.mode {
         0 => Mode::Normal,
@@ -153,6 +157,17 @@ fn build_layer(m: &LayerM, page: usize) -> Layer {
     }
     for c in &m.cells {
         l.set_char((c.x as i32, c.y as i32), c.v.to_engine());
+    }
+    if m.margin != (0, 0) {
+        let junk = CellV { ch: 'Z', fg: 12, bg: 4, attr: 0, font: 0 }.to_engine();
+        for y in 0..m.h as i32 + m.margin.1 as i32 {
+            for x in 0..m.w as i32 + m.margin.0 as i32 {
+                if x >= m.w as i32 || y >= m.h as i32 {
+                    l.set_char((x, y), junk);
+                }
+            }
+        }
+        l.set_size((m.w as i32, m.h as i32));
     }
     if m.compact {
         let inv = AttributedChar::invisible();
@@ -573,9 +588,12 @@ fn layer(max_cells: usize) -> BoxedStrategy<LayerM> {
     let cells = prop::collection::vec((0u8..12, 0u8..8, cell_value()), 0..=max_cells);
     // 15% of the layers carry a pending preview offset: the stored base offset differs from the reported one by a small delta
     let base_delta = prop_oneof![17 => Just(None), 3 => (-3i8..=3, -3i8..=3).prop_map(Some)];
-    (geometry, props, fill, cells, base_delta)
-        .prop_map(|((w, h, ox, oy), (mode, alpha, visible, compact), fill, raw, bd)| LayerM {
+    // 20% of the layers were shrunk after drawing: their storage holds visible cells outside the rectangle
+    let margin = prop_oneof![8 => Just((0u8, 0u8)), 1 => (1u8..=3, 0u8..=2), 1 => (0u8..=3, 1u8..=2)];
+    (geometry, props, fill, cells, base_delta, margin)
+        .prop_map(|((w, h, ox, oy), (mode, alpha, visible, compact), fill, raw, bd, margin)| LayerM {
             base: bd.map(|(a, b)| (ox + a, oy + b)),
+            margin,
             w,
             h,
             ox,
@@ -630,12 +648,12 @@ fn tiny_layer(code: u64) -> LayerM {
     let visible = rest % 2 == 0;
     let alpha = (rest / 2) % 2 == 0;
     let mode = (rest / 4) as u8;
-    LayerM { w: 1, h: 1, ox: 0, oy: 0, mode, alpha, visible, compact: false, fill: None, cells: tiny_cell(kind).map(|v| CellM { x: 0, y: 0, v }).into_iter().collect(), base: None }
+    LayerM { w: 1, h: 1, ox: 0, oy: 0, mode, alpha, visible, compact: false, fill: None, cells: tiny_cell(kind).map(|v| CellM { x: 0, y: 0, v }).into_iter().collect(), base: None, margin: (0, 0) }
 }
 
 fn tiny_case(i: u64) -> Case {
     let layers = vec![tiny_layer(i % TINY_PER_LAYER), tiny_layer(i / TINY_PER_LAYER % TINY_PER_LAYER), tiny_layer(i / TINY_PER_LAYER / TINY_PER_LAYER)];
-    let one = |ch, fg, bg, mode, alpha| LayerM { w: 1, h: 1, ox: 0, oy: 0, mode, alpha, visible: true, compact: false, fill: None, cells: vec![CellM { x: 0, y: 0, v: CellV { ch, fg, bg, attr: 0, font: 0 } }], base: None };
+    let one = |ch, fg, bg, mode, alpha| LayerM { w: 1, h: 1, ox: 0, oy: 0, mode, alpha, visible: true, compact: false, fill: None, cells: vec![CellM { x: 0, y: 0, v: CellV { ch, fg, bg, attr: 0, font: 0 } }], base: None, margin: (0, 0) };
     Case { font_page: 0, terminal: false, layers, extra: one('E', 14, 6, 0, true), alt: vec![one('Z', 1, 3, 0, false)], dx: 1, dy: -1 }
 }
 
@@ -644,7 +662,7 @@ fn main() {
     eng.rule(
         "stacks: generated stacks of 1..=5 layers (bottom to top), each 1..=12 x 1..=8 at offsets -4..=6, mode Normal/Chars/Attributes, alpha or not, visible (85%) or hidden, \
          optional fill cell plus 0..=14 sparse cells (plain cells, transparent-colour half-block cells, canonical and non-canonical invisible cells, font pages 0..2), rows optionally \
-         compacted; the same default_font_page (0/1/3) on every layer, no overlay layer, terminal-buffer flag in 20% (font page 0). Auxiliary inputs: `extra` (hidden layer for L1, \
+         compacted, 20% of the layers shrunk with Layer::set_size after drawing (visible cells stay in the storage outside the rectangle); the same default_font_page (0/1/3) on every layer, no overlay layer, terminal-buffer flag in 20% (font page 0). Auxiliary inputs: `extra` (hidden layer for L1, \
          geometry of the empty alpha layer for L3), `alt` (0..=3 layers replacing everything beneath an opaque layer, L4), translation d in -6..=6 squared (L5, L6). All six laws are \
          evaluated on every case at every position of the bounding box of all layers involved plus a 2-cell border (insertion laws at every index, per-layer laws for every layer). \
          tiny_exhaustive: all 96^3 stacks of three 1x1 layers on one position (3 modes x alpha x visible x 8 cell kinds each) through the same six laws. \
